@@ -83,7 +83,7 @@ for p in props:
             "quick_cmd": "./run.sh %s quick" % i,
             "thorough_cmd": "./run.sh %s thorough" % i,
             "evidence_file": "evidence/%s.json" % i,
-            "replay_cmd_template": "./bin/gsdcheck -replay {path}",
+            "replay_cmd_template": "./replay.sh {path}",
             "engine": "gsdcheck",
             "level_claimed": {"category": "other", "text": text, "design_ref": "DESIGN.md section 5 " + i},
             "level_note": note,
